@@ -664,3 +664,74 @@ def gen_pcassert_prog(rng):
         items.append(('const', 'pad', 'fwd - fwd + %d' % k))
     p.items = items
     return p
+
+
+def gen_unsized_prog(rng):
+    """directed family: candidates for one instruction text whose STATIC size is unknown (the production concatenates an
+    untyped argument as it is) next to statically sized ones; the smallest RESOLVED encoding must win whatever the
+    declaration order or the split into blocks"""
+    isa = Isa()
+    m = rng.choice(['ld', 'mov', 'add'])
+    rules = [dict(m=m, ops=[('expr', 'x', None, ('', ''))], prod='0x%02x @ x' % rng.below(256), cascade=True),
+             dict(m=m, ops=[('expr', 'x', rng.choice(['u8', 'u16', 'i8']), ('', ''))], prod='0x%02x @ x' % rng.below(256), cascade=True)]
+    if rng.chance(0.4):
+        rules.append(dict(m=m, ops=[('expr', 'x', None, ('', ''))], prod='0x%02x @ x`%d' % (rng.below(256), rng.choice([8, 16, 24])), cascade=True))
+    if rng.chance(0.4):
+        rules.append(dict(m='nop', ops=[], prod='0x00'))
+    isa.rules = rng.shuffle(rules)
+    if rng.chance(0.4) and len(isa.rules) > 1:
+        cut = rng.range(1, len(isa.rules) - 1)
+        isa.cuts = [0, cut, len(isa.rules)]
+    p = Prog(isa)
+    ri = next(i for i, r in enumerate(isa.rules) if r['m'] == m)
+    for _ in range(rng.range(1, 4)):
+        v = rng.below(256)
+        w = rng.choice([2, 4, 6])
+        p.items.append(('instr', ri, [rng.choice(['0x%0*x' % (w, v), '0x%0*x' % (w, v), '0b%s' % format(v, '08b'), '0x%02x @ 0x%02x' % (rng.below(16), v)])]))
+        if rng.chance(0.3):
+            p.items.append(('data', 8, [str(rng.below(256))]))
+    if rng.chance(0.5):
+        p.names.append('l0'); p.items.append(('label', 'l0'))
+    return p
+
+
+def gen_widthflip_prog(rng):
+    """directed family: a constant used before its definition whose NUMBER stays the same while its WIDTH depends on a
+    label behind the reader, read by something sensitive to the width (an untyped concatenation, an unsized `#d`): the
+    convergence test must see a change of width alone, at every budget"""
+    isa = Isa()
+    isa.rules.append(dict(m='ld', ops=[('expr', 'x', None, ('', ''))], prod='0x%02x @ x' % rng.below(256), cascade=True))
+    if rng.chance(0.5):
+        isa.rules.append(dict(m='nop', ops=[], prod='0x00'))
+    p = Prog(isa)
+    v = rng.below(200)
+    w1, w2 = rng.choice([(2, 4), (4, 2), (2, 6), (4, 8)])
+    t = rng.range(0, 4)
+    chain = rng.range(0, 2)
+    names = ['xw'] + ['y%d' % i for i in range(chain)]
+    p.names += names + ['lw']
+    items = []
+    pre = rng.range(0, 2)
+    for _ in range(pre):
+        items.append(('data', 8, [str(rng.below(256))]))
+    reader = rng.below(3)
+    if reader == 0:
+        items.append(('instr', 0, ['xw']))
+    elif reader == 1:
+        items.append(('data', None, ['xw']))
+    else:
+        items.append(('data', None, ['0x%02x @ xw' % rng.below(256)]))
+    cond = 'lw %s %d' % (rng.choice(['>', '>=']), t + pre)
+    expr = '(%s ? 0x%0*x : 0x%0*x)' % (cond, w1, v, w2, v)
+    defs = []
+    prev = 'xw'
+    for n in names[1:]:
+        defs.append(('const', prev, n)); prev = n
+    defs.append(('const', prev, expr))
+    if rng.chance(0.5):
+        items += defs + [('label', 'lw')]
+    else:
+        items += [('label', 'lw')] + defs
+    p.items = items
+    p.names = [it[1] for it in items if it[0] in ('label', 'const')]      # declaration order
+    return p
